@@ -207,9 +207,24 @@ class Check(c05.Check):
         if tclk and (single or rng.random() < 0.3):
             who = 0 if not single else rng.randrange(n)
             for _ in range(rng.randint(1, 2)):
-                rts[who].insert(rng.randrange(len(rts[who]) + 1), ['tempo', rng.choice(tclk), rng.choice(TEMPI)])
-        has_tempo = any(a[0] == 'tempo' for s in rts for a in s)
-        if has_tempo and not single:
+                kind = rng.choice(['tempo', 'tempo', 'etempo', 'beats']) if single else 'tempo'
+                val = rng.choice(TEMPI) if kind != 'beats' else rng.choice(['1/2', '1', '2', '3', '5'])
+                rts[who].insert(rng.randrange(len(rts[who]) + 1), [kind, rng.choice(tclk), val])
+        if single and rng.random() < 0.3:
+            # scheduling in the past: a negative delta (performed overdue, reading its own past time)
+            r = rng.randrange(n)
+            ys = [k for k, a in enumerate(rts[r]) if a[0] == 'y']
+            if ys:
+                rts[r][rng.choice(ys)] = ['y', rng.choice(['-1/8', '-1/4', '-1/2', '-1'])]
+        overdue = any(a[0] == 'beats' or (a[0] == 'y' and a[1].startswith('-')) for s in rts for a in s)
+        if overdue:
+            # tasks performed overdue read a PAST logical time: `etempo` (anchored at the elapsed = physical time in
+            # RT) is then legitimately different in the two modes, and NRT cannot stamp bundles before time 0
+            rts = [[(['tempo'] + a[1:]) if a[0] == 'etempo' else a for a in s if a[0] != 'send'] for s in rts]
+        has_tempo = any(a[0] in ('tempo', 'etempo', 'beats') for s in rts for a in s)
+        has_etempo = any(a[0] == 'etempo' for s in rts for a in s)
+        if (has_tempo and not single) or has_etempo:
+            # etempo anchors at the physical time: equal to the logical time only without lateness
             late = {'mode': 'zero', 'vals': []}
         else:
             mode = rng.choice(['zero', 'common', 'perthread', 'random', 'random'])
@@ -218,7 +233,8 @@ class Check(c05.Check):
             else:
                 vals = [rng.choice(['1/2', '1', '3', '1/4', '0', '1/1024']) for _ in range(rng.randint(1, 5))]
             late = {'mode': mode, 'vals': vals}
-        return {'tempi': tempi, 'root': root, 'rts': rts, 'late': late, 'klass': 'S' if single else 'M'}
+        return {'tempi': tempi, 'root': root, 'rts': rts, 'late': late, 'klass': 'S' if single else 'M',
+                'tail': rng.choice(['0', '0', '1/2', '2'])}
 
     def impl(self, cases):
         outs = super().impl(cases)
@@ -258,6 +274,10 @@ class Check(c05.Check):
                 or out['nrt2']['draw_values'] != nrt['draw_values']):
             return {'what': 'two fresh NRT runs of the same seeded program differ (score bytes or logged values)',
                     'signature': 'c10:nondeterministic'}
+        if nrt['task_times'] and nrt['elapsed'] != nrt['task_times'][-1]:
+            return {'what': f'NRT: after main.process(tailtime={case.get("tail", "0")}) the logical time is '
+                            f'{nrt["elapsed"]} s; the last performed task ran at {nrt["task_times"][-1]} s',
+                    'signature': 'c10:nrt-elapsed'}
         single = len(clocks_used(case)) == 1
         exp_gen = expected_gens(case)
         for mode, o, start in (('nrt', nrt, F(0)), ('rt', rt, F(rt['start']) if rt else None)):
@@ -310,7 +330,8 @@ class Check(c05.Check):
                                 f'{nrt["bundles"][:8]} vs RT datagrams ordered by timetag then send order '
                                 f'{rt_sorted[:8]}', 'signature': 'c10:rt-nrt:bundles'}
         else:
-            plain = not any(x[0] in ('pause', 'resume', 'stop', 'wait', 'sig', 'tempo') for s in case['rts'] for x in s)
+            plain = not any(x[0] in ('pause', 'resume', 'stop', 'wait', 'sig', 'tempo', 'etempo', 'beats')
+                            for s in case['rts'] for x in s)
             if plain:
                 def proj(evs):
                     d = {}
